@@ -36,3 +36,6 @@ class ModifiedZorgNotesEvent(Event):
     zettel_dir: Path
     zorg_page_path: Path
     modified_notes: list[Note]
+    # True iff another event will rewrite the same page after this one, i.e.
+    # the page does NOT match the DB yet once this event has been handled.
+    more_rewrites_pending: bool = False
